@@ -99,7 +99,20 @@ def shrink(c):
 MULTI_CMDS = [['clean', 'sites', '-c', '0.3'], ['clean', 'sites', '-c', '0.3', '--positions', 'kept.txt', '--positions-rm', 'rm.txt'], ['clean', 'sites', '--char', 'MAJ', '-c', '0.6'], ['clean', 'seqs', '-c', '0.3'], ['clean', 'sites', '--ends', '-c', '0.2']]
 
 
+def _gen_large(rng, tier):
+    for _ in range(2 if tier == "quick" else 10):
+        n, L = (rng.randint(2, 4), rng.choice([4097, 4200])) if rng.random() < 0.5 else (rng.choice([101, 150]), rng.randint(2, 8))
+        rows = [("s%d" % i, "".join(rng.choice("ACGT" + "-" * rng.choice([1, 6]) + "N") for _ in range(L))) for i in range(n)]
+        opts = [rng.randint(0, 1) for _ in range(5)]
+        cut = rng.choice(["0", "1/2", "1/3", "1", "%d/%d" % (rng.randint(0, n), n)])
+        yield Case("rmsites", [1, rows_str(rows), rng.choice(["-", "N", "-N"]), cut] + opts, True, "rmsites-large")
+        yield Case("rmmajsites", [1, rows_str(rows), cut, opts[0], opts[2], opts[3]], True, "rmmajsites-large")
+        yield Case("rmseqs", [1, rows_str(rows), rng.choice("-N"), rng.choice(["0", "1/2", "1/4"]), opts[1], opts[2], opts[3]], True, "rmseqs-large")
+
+
 def gen(rng, tier):
+    for c in _gen_large(rng, tier):
+        yield c
     from driver import multigen
     for c in _gen_core(rng, tier):
         yield c
